@@ -59,6 +59,7 @@ type Case struct {
 	Want  *V     `json:"want,omitempty"` // gomis: what the Go oracle expects
 	WantA *V     `json:"wanta,omitempty"`
 	Class string `json:"class,omitempty"` // generator class (distribution)
+	GM    bool   `json:"gm,omitempty"`    // the Go copy of the specification disagrees with Obs
 }
 
 func vNone() V             { return V{T: "none"} }
@@ -314,6 +315,7 @@ func (s *sink) do(c Case) {
 		}
 		if bad {
 			s.gomis++
+			c.GM = true
 			if s.gomis <= 400 {
 				g := c
 				g.K = "gomis"
@@ -492,6 +494,7 @@ func riskyParent(s *sink, quick bool, seed uint64) {
 				if want, wantAfter, ok := oracle(&c); ok && c.Obs.T != "panic" {
 					if !sameV(want, c.Obs) || (wantAfter != nil && c.After != nil && !sameV(*wantAfter, *c.After)) {
 						s.gomis++
+						c.GM = true
 						g := c
 						g.K = "gomis"
 						g.Want = &want
@@ -499,8 +502,13 @@ func riskyParent(s *sink, quick bool, seed uint64) {
 						hx.Emit(g)
 					}
 				}
-				c.K = "case"
-				s.coqN++
+				if c.Obs.T == "panic" || c.GM || done%3 == 0 {
+					c.K = "case"
+					s.coqN++
+				} else {
+					c.K = "py"
+					s.pyN++
+				}
 				hx.Emit(c)
 			}
 		}
